@@ -51,7 +51,7 @@ def setup_slot(slot):
     # progress cannot give it a half-edited harness; commit before running
     sh(f"find {verif} -mindepth 1 -maxdepth 1 ! -name harness ! -name fuzz -exec rm -rf {{}} +")
     sh(f"find {verif}/harness -mindepth 1 -maxdepth 1 ! -name target -exec rm -rf {{}} + 2>/dev/null; find {verif}/fuzz -mindepth 1 -maxdepth 1 ! -name target -exec rm -rf {{}} + 2>/dev/null")
-    sh(f"git -C {VERIF} archive HEAD | tar -x -C {verif}")
+    sh(f"git -C {VERIF} archive {os.environ.get('FQ_VERIF_REF', 'HEAD')} | tar -x -C {verif}")
     os.makedirs(f"{verif}/evidence", exist_ok=True)
     if not os.path.exists(f"{verif}/harness/target") and os.path.exists(f"{VERIF}/harness/target"):
         sh(f"cp -a {VERIF}/harness/target {verif}/harness/target")
@@ -193,7 +193,7 @@ def main():
     with ThreadPoolExecutor(max_workers=jobs) as ex:
         for out in ex.map(worker, range(jobs)):
             results.extend(out)
-    path = f"{VERIF}/tools/mutants_results.json"
+    path = os.environ.get("FQ_RESULTS", f"{VERIF}/tools/mutants_results.json")
     old = {}
     if os.path.exists(path):
         old = {r["id"]: r for r in json.load(open(path))}
